@@ -13,4 +13,6 @@ func init() {
 	mut("C04", "revert-half-close", "proxy.go", "\t\tif cw, ok := w.(interface{ CloseWrite() error }); ok {\n\t\t\tcw.CloseWrite()\n\t\t} else if c, ok := w.(io.Closer); ok {\n\t\t\tc.Close()\n\t\t}\n", "", "C04.R5", "")
 	mut("C04", "flush-after-tunnel-start", "proxy.go", "\tif err := brw.Flush(); err != nil {\n\t\tlog.Errorf(\"martian: got error while flushing response back to client: %v\", err)\n\t}\n\n\tcbr := bufio.NewReader(cconn)\n", "\tcbr := bufio.NewReader(cconn)\n", "C04.R1", "flushed before")
 	mut("C04", "copier-skips-signal-on-error", "proxy.go", "\t\t\tlog.Errorf(\"martian: failed to copy CONNECT tunnel: %v\", err)\n\t\t}\n", "\t\t\tlog.Errorf(\"martian: failed to copy CONNECT tunnel: %v\", err)\n\t\t\treturn\n\t\t}\n", "C04.R2", "signals completion")
+	mut("C04", "half-close-skipped-on-error", "proxy.go", "\t\t\tlog.Errorf(\"martian: failed to copy CONNECT tunnel: %v\", err)\n\t\t}\n", "\t\t\tlog.Errorf(\"martian: failed to copy CONNECT tunnel: %v\", err)\n\t\t\tdonec <- true\n\t\t\treturn\n\t\t}\n", "C04.R5", "")
+	twin("C04", "signal-deferred", "proxy.go", "\tcopySync := func(w io.Writer, r io.Reader, donec chan<- bool) {\n\t\tif _, err := io.Copy(w, r); err != nil && err != io.EOF {\n\t\t\tlog.Errorf(\"martian: failed to copy CONNECT tunnel: %v\", err)\n\t\t}\n", "\tcopySync := func(w io.Writer, r io.Reader, done chan<- bool) {\n\t\tdonec := make(chan bool, 1)\n\t\tdefer func() { done <- true }()\n\t\tif _, err := io.Copy(w, r); err != nil && err != io.EOF {\n\t\t\tlog.Errorf(\"martian: failed to copy CONNECT tunnel: %v\", err)\n\t\t}\n")
 }
